@@ -304,7 +304,9 @@ def _weights_sum(arr, n, ety):
     for k in range(n):
         term = Cast(Index(arr, Lit(k, I32)), I64)
         if k:
-            term = Bin('*', term, Lit(10 ** k, I64))
+            # small weights beyond the third element: 64-bit products with 10^3, 10^4 ... make the queries of the
+            # five-element i64 arrays undecidable in practice; distinct small odd weights still tell the elements apart
+            term = Bin('*', term, Lit(10 ** k if k < 3 else (3, 7, 11, 13, 17)[k - 3], I64))
         e = term if e is None else Bin('+', e, term)
     return e
 
